@@ -3,6 +3,8 @@ package scen
 import (
 	"fmt"
 
+	"github.com/ipni/go-libipni/dagsync"
+
 	"github.com/ipfs/go-cid"
 	cidlink "github.com/ipld/go-ipld-prime/linking/cid"
 	"github.com/multiformats/go-multicodec"
@@ -192,4 +194,61 @@ func runC02(r *simkit.Run, c Cfg) { runFaultSync(r, c, "c02", c02Plan) }
 
 func init() {
 	Register(&Scenario{Name: "C02", Property: "C02", Run: runC02, Cases: c02Cases, Describe: c02DescribeTier("quick")})
+}
+
+// c02LongDigest: a publisher whose CIDs carry a digest longer than the
+// fixed-size hasher of their hash function produces (blake3 is an
+// extendable-output function; go-multihash computes up to 128 bytes of it,
+// the link system's registered hasher 32). The bytes served do hash to those
+// CIDs. The subscriber refuses such a chain with an error, or it syncs it -
+// and then it can walk over what it has stored again: what it must not do is
+// store a block that it cannot load.
+func c02LongDigest(r *simkit.Run, w *World) {
+	tp := r.Tape
+	r.EnableSites(map[string]bool{})
+	n := 33 + tp.Choose(96, "longDigest.len")
+	proto := &cidlink.LinkPrototype{Prefix: cid.Prefix{Version: 1, Codec: uint64(multicodec.DagJson), MhType: multihash.BLAKE3, MhLength: n}}
+	nAds := tp.Range(1, 4, "longDigest.ads")
+	pub := w.NewPublisher(PubOpts{Name: "P1", NAds: nAds, Hosts: []string{"10.0.0.1:3104"}, Proto: proto, LongDigest: true})
+	sub := w.NewSubscriber(dagsync.RecvAnnounce(""), dagsync.SegmentDepthLimit(int64(tp.Choose(3, "longDigest.seg"))-1))
+	lst := &listener{}
+	lst.ch, lst.cancel = sub.Sub.OnSyncFinished()
+	r.Logf("~cfg", "blake3 digests of %d bytes, %d advertisements", n, nAds)
+	for attempt := 0; attempt < 3 && !r.Failed(); attempt++ {
+		var err error
+		done := false
+		hook0 := len(sub.Hooks())
+		var opts []dagsync.SyncOption
+		if attempt > 0 {
+			opts = append(opts, dagsync.WithAdsResync(true))
+		}
+		r.Go(fmt.Sprintf("sync%d", attempt), func(t *simkit.Task) {
+			_, err = sub.Sub.SyncAdChain(bg, pub.AddrInfo(), opts...)
+			done = true
+			t.Logf("SyncAdChain -> err=%v", err != nil)
+		})
+		out := r.Loop(simkit.LoopCfg{MaxSteps: 400, Custom: w.Net.RequestAction, Done: func() bool { return done && len(r.AllParked()) == 0 }})
+		if out != "done" {
+			r.Violate("c02.liveness", "sync of a chain with %d-byte blake3 digests did not return (%s)", n, out)
+			break
+		}
+		if err != nil {
+			r.Probe("long-digest-refused")
+			if len(sub.HooksSince(hook0)) != 0 {
+				r.Violate("c02.hooked", "sync of a chain with %d-byte blake3 digests failed (%v) after handing %d blocks to the hook", n, err, len(sub.HooksSince(hook0)))
+			}
+		} else {
+			r.Probe("long-digest-synced")
+			if got := hookNames(sub.HooksSince(hook0)); len(got) != nAds {
+				r.Violate("c02.hooked", "sync of a chain of %d advertisements with %d-byte blake3 digests succeeded with hook calls %v", nAds, n, got)
+			}
+		}
+		if aerr := sub.Store.Audit(); aerr != nil {
+			r.Violate("c02.audit", "after syncing a chain with %d-byte blake3 digests: %v", n, aerr)
+		}
+	}
+	r.State(fmt.Sprintf("longDigest ads=%d", nAds))
+	r.NoteEnabled(2)
+	r.MarkEnd()
+	w.Shutdown(sub, lst)
 }
